@@ -1,6 +1,7 @@
 package rules
 
 import (
+	"go/token"
 	"go/types"
 	"regexp"
 	"strings"
@@ -171,6 +172,45 @@ func c13(c *Ctx) {
 			continue
 		}
 		key := spec.name + "|partition"
+		// the two may share one selector function that is told the polarity: analyse it with the
+		// constant arguments of this caller
+		constParam := map[*ssa.Parameter]bool{}
+		hasLookup := false
+		for _, b := range f.Blocks {
+			for _, in := range b.Instrs {
+				if l, ok := in.(*ssa.Lookup); ok && l.CommaOk {
+					hasLookup = true
+				}
+			}
+		}
+		if !hasLookup {
+			for _, cs := range engine.Calls(f) {
+				g := cs.Common().StaticCallee()
+				if g == nil || len(g.Blocks) == 0 || engine.RelPkg(P.OwnPkgPath(g)) != "rfc822" || cs.Instr.Parent() != f {
+					continue
+				}
+				gl := false
+				for _, b := range g.Blocks {
+					for _, in := range b.Instrs {
+						if l, ok := in.(*ssa.Lookup); ok && l.CommaOk {
+							gl = true
+						}
+					}
+				}
+				if !gl {
+					continue
+				}
+				for i, a := range cs.Common().Args {
+					if k, ok := a.(*ssa.Const); ok && i < len(g.Params) {
+						if bv, isBool := engine.ConstBool(k); isBool {
+							constParam[g.Params[i]] = bv
+						}
+					}
+				}
+				f = g
+				break
+			}
+		}
 		// the membership lookup
 		var look *ssa.Lookup
 		for _, b := range f.Blocks {
@@ -214,11 +254,39 @@ func c13(c *Ctx) {
 			}
 			// polarity: the `ok` extract feeds exactly one If; appends of getAll on found / not found edge
 			var iff *ssa.If
+			foundEdge := 0 // successor taken when the key is in the set
 			for _, r := range *look.Referrers() {
 				if ex, ok := r.(*ssa.Extract); ok && ex.Index == 1 {
 					for _, rr := range *ex.Referrers() {
 						if i, ok := rr.(*ssa.If); ok {
-							iff = i
+							iff, foundEdge = i, 0
+						}
+						// ok == P / ok != P with P a parameter whose value this caller fixes
+						if bo, ok := rr.(*ssa.BinOp); ok && (bo.Op == token.EQL || bo.Op == token.NEQ) {
+							other := bo.Y
+							if other == ssa.Value(ex) {
+								other = bo.X
+							}
+							par, isPar := other.(*ssa.Parameter)
+							pv, known := constParam[par]
+							if !isPar || !known {
+								continue
+							}
+							for _, r3 := range *bo.Referrers() {
+								if i, ok := r3.(*ssa.If); ok {
+									iff = i
+									// cond value when found(ok=true): EQL -> pv, NEQ -> !pv
+									condWhenFound := pv
+									if bo.Op == token.NEQ {
+										condWhenFound = !pv
+									}
+									if condWhenFound {
+										foundEdge = 0
+									} else {
+										foundEdge = 1
+									}
+								}
+							}
 						}
 					}
 				}
@@ -266,8 +334,8 @@ func c13(c *Ctx) {
 					}
 					return walk(start)
 				}
-				tMust, tMay := appendsFrom(iff.Block().Succs[0])
-				fMust, fMay := appendsFrom(iff.Block().Succs[1])
+				tMust, tMay := appendsFrom(iff.Block().Succs[foundEdge])
+				fMust, fMay := appendsFrom(iff.Block().Succs[1-foundEdge])
 				if spec.onFound {
 					polOK = tMust && !fMay
 					polWhy = "Fields must append the entry on the found edge of the lookup and never on the not-found edge"
